@@ -66,7 +66,13 @@ Definition step2 (st : state2) (o : op) : res (state2 * out) :=
   | SSize j => on_s st j (fun p bl => Ok (p, bl, ONum (buf_size bl)))
   | SEmpty j =>
     on_s st j (fun p bl => Ok (p, bl, OBool (match bl with [] => true | _ => buf_size bl =? 0 end)))
-  | PoolPurge => Undef          (* the counter wrap on Purge is modelled in Cross.v *)
+  | PoolPurge =>
+    (* Purge() of every pool.  m_blocks_allocated-- once per free block: exact as long as no pool
+       has more free blocks than it allocated; otherwise the unsigned counter wraps (Cross.v,
+       c15_crosspool_refuted) and this model stops *)
+    if forallb (fun p => length (p_free p) <=? p_alloc p) (m_pools st)
+    then Ok (mkS2 (map p_purge (m_pools st)) (m_q st) (m_s st), ONone)
+    else Undef
   end.
 
 (* per pool: BlocksAllocated(), FreeBlocks(), blocks held by the buffers constructed with it *)
@@ -79,3 +85,12 @@ Definition acct2_ok (st : state2) : bool :=
   forallb (fun t => match t with (a, f, h) => a =? f + h end) (pool_obs st).
 Definition noempty2_ok (st : state2) : bool :=
   forallb (fun kb => forallb (fun b => negb (b_empty b)) (snd kb)) (m_q st ++ m_s st).
+
+(* `delete stack; stack = new IOStack()` for a DEFAULT-constructed stack (threaded cases): ~IOStack
+   releases the blocks to the stack's private pool and deletes that pool (which deletes its free
+   blocks); the new stack owns a new, empty pool.  Executable model only: blocks that had migrated
+   out of the private pool live on in other buffers, uncounted by any pool, so none of the
+   accounting invariants is claimed across this operation. *)
+Definition destroy_private (st : state2) (j : nat) : res state2 :=
+  '(k, _) <- get2 (m_s st) j ;; p <- get2 (m_pools st) k ;;
+  Ok (mkS2 (upd (m_pools st) k (p_new (p_bs p))) (m_q st) (upd (m_s st) j (k, []))).
